@@ -154,7 +154,8 @@ def st_law(draw):
             lhs, rhs, trivial = S, S, True
         else:
             k = draw(st.integers(1, n))
-            parts = [{'op': 'shard', 'k': k, 'i': i, 'via': 'split', 'in': S} for i in range(k)]
+            via = draw(st.sampled_from(['split', 'split', 'shard', 'shard_neg']))
+            parts = [{'op': 'shard', 'k': k, 'i': i, 'via': via, 'in': S} for i in range(k)]
             lhs = parts[0] if k == 1 else {'op': 'concat', 'how': 'function', 'ins': parts}
             rhs = S
             trivial = k == 1
@@ -205,7 +206,7 @@ def st_law(draw):
         mask = draw(st.lists(st.booleans(), min_size=n, max_size=n))
         how = draw(st.sampled_from(['mask', 'slice', 'ilist']))
         if how == 'mask':
-            form = {'k': 'mask', 'bits': mask}
+            form = {'k': 'mask', 'bits': mask, 'as': draw(st.sampled_from(['np', 'list', 'tuple']))}
         elif how == 'ilist':
             form = {'k': 'ilist', 'idx': [i for i, b in enumerate(mask) if b], 'as': 'list'}
         else:
